@@ -272,6 +272,8 @@ var joinCase *joinTrace
 
 func clusterPhase(R *res.Result, p *prepared) {
 	skip := func(why string) { R.Notes = append(R.Notes, "cluster phase incomplete: "+why) }
+	tPhase := time.Now()
+	defer func() { R.CountN("cluster:phase-seconds", int(time.Since(tPhase).Seconds())) }()
 	if p.c != nil {
 		defer p.c.close()
 	}
@@ -464,18 +466,26 @@ func clusterPhase(R *res.Result, p *prepared) {
 	}
 	joinDuringGlobal(R, c, T, jt, global, localAns, suffix)
 	joinCase = jt
-	idleMemberTakesAllocator(R, c, T)
 	newLeaderMissesDC(R, c, T, jt)
+	if thoroughTier { // three allocator transfers: a minute and a half
+		if P := c.leader(); P != nil || waitFor(30*time.Second, func() bool { return c.leader() != nil }) {
+			idleMemberTakesAllocator(R, c, c.leader())
+		}
+	}
 }
 
-// idleMemberTakesAllocator (Go side only): the PD leader T serves no Local TSO; member X is drained (whatever it serves moves
+var thoroughTier bool
+
+// idleMemberTakesAllocator (Go side only, thorough tier, last scenario): T is the PD leader; member X is drained (whatever it serves moves
 // to the third member), then one allocator is moved TO X, a member the PD leader has no other reason to talk to. The new
 // allocator leader starts from the stored window of its dc-location, i.e. ahead of the clocks; the PD leader learns about it
 // by watching etcd, a little later. A Global request in between either waits / is refused, or it is synchronised with the new
 // allocator leader: every Global answer must be greater than every Local answer that was complete before the request began.
 func idleMemberTakesAllocator(R *res.Result, c *cluster, T *node) {
 	skip := func(why string) { R.Notes = append(R.Notes, "idle-member scenario incomplete: "+why) }
-	if c.leader() != T {
+	t0 := time.Now()
+	defer func() { R.CountN("cluster:idle-member:seconds", int(time.Since(t0).Seconds())) }()
+	if T == nil || c.leader() != T {
 		skip("PD leader changed")
 		return
 	}
